@@ -151,6 +151,12 @@ RHS = {
     'v+v':   (lambda v: '%s + %s' % (v[0], v[0]),  lambda x: x[0] + x[0],     1),
 }
 
+def calm_op(ty, op, rhs):
+    """int:  a -= v + v  is compiled to  a + v * -2 ; the 32-bit multiplication by a negative constant against the adder
+    form of the clause is a hard SAT instance (measured: one element, > 300 s) although nothing is wrong: use += there."""
+    if ty.kind == 'int' and op == '-=' and rhs == 'v+v': return '+='
+    return op
+
 def mode_cfg(ty, isa, std='c++14', macros=()):
     if ty.kind == 'float': return 'UF', Cfg(isa, std, macros=macros, pipe='P0')
     return 'SYM', Cfg(isa, std, macros=macros)
@@ -169,6 +175,7 @@ def shp(shape): return 'x'.join(map(str, shape))
 def view_case(fam, ty, shape, dst, srcs, op, rhs, isa, viewtxt, parent='own', std='c++14', macros=(), noalias=True, srctxt=None):
     """A(dst).noalias() op= rhs(A(src0), A(src1)); dst / srcs[i]: per-axis list of ranges."""
     n = prod(shape)
+    op = calm_op(ty, op, rhs)
     a = Buf('a', ty, n, 'inout')
     mode, cfg = mode_cfg(ty, isa, std, macros)
     D = positions(shape, dst); Ss = [positions(shape, s) for s in srcs]
@@ -260,6 +267,7 @@ def itview_case(ty, shape, ishape, op, rhs, isa, ity=INT, srckind='it', noalias=
     """A(P).noalias() op= f(A(Q))   P: symbolic duplicate-free index tensor (flat indices), Q: symbolic index tensor
     (repeats allowed) or a seq range of the same length (rank 1)."""
     n = prod(shape); K = prod(ishape)
+    op = calm_op(ty, op, rhs)
     a = Buf('a', ty, n, 'inout'); p = Buf('p', ity, K, 'in')
     bufs = [a, p]; req = in_range(p, K, n) + dup_free(p, K)
     replay = replay_perm('p', K, n, ity)
@@ -318,6 +326,7 @@ def mask_case(ty, shape, op, rhs, isa, srckind, noalias=True):
     'self' : A(M) itself (coinciding; without noalias)
     'whole': A (coinciding, the tensor itself)"""
     n = prod(shape)
+    op = calm_op(ty, op, rhs)
     a = Buf('a', ty, n, 'inout'); m = Buf('m', BOOL, n, 'in')
     bufs = [a, m]; req = is_bool(m, n); replay = None
     mode, cfg = mode_cfg(ty, isa)
